@@ -1,6 +1,6 @@
 #!/bin/bash
 # usage: tools_mutant.sh <patch.diff> <property-id>...   -- applies a seeded change to /repo, runs the quick checks, undoes it
-patch="$1"; shift
+patch="$(realpath "$1")"; shift
 cd /repo || exit 2
 if ! git diff --quiet; then echo "/repo has uncommitted changes"; exit 2; fi
 if ! git apply "$patch"; then echo "patch does not apply"; exit 2; fi
